@@ -16,7 +16,15 @@ Definition enc_hash (wp : bool) (a : addr) : N :=
   fold_left (fun acc x => (acc * 65536 + x + 1)%N)
             ([if wp then 1%N else 0%N; N.of_nat (List.length (a_ip a))] ++ a_ip a ++ [a_port a]) 0%N.
 
-Record rstate := mkr { rm : mgr; rnow : N; rseen : list N }.
+Record rstate := mkr { rm : mgr; rnow : N; rseen : list N; rtimer : option N }.
+
+(** the shell's one-shot timer: every [ArmTimer] replaces it *)
+Fixpoint last_arm (os : list lout) (acc : option N) : option N :=
+  match os with
+  | [] => acc
+  | (_, ArmTimer d) :: os' => last_arm os' (Some d)
+  | _ :: os' => last_arm os' acc
+  end.
 
 Fixpoint index_of (v : N) (l : list N) (k : nat) : option nat :=
   match l with
@@ -91,7 +99,7 @@ Definition cfg_of (args : list tok) : option (cfg * list tok) :=
 Definition do_step (st : rstate) (i : input) : rstate * list tok :=
   let '(m', os) := step enc_hash (rm st) (rnow st) i in
   let '(seen', ts) := outs_toks (rseen st) os in
-  (mkr m' (rnow st) seen', ts ++ st_toks m').
+  (mkr m' (rnow st) seen' (last_arm os (rtimer st)), ts ++ st_toks m').
 
 Definition step_op (st : rstate) (op : list tok) : rstate * list tok :=
   let bad := (st, [TS "badop"]) in
@@ -100,7 +108,7 @@ Definition step_op (st : rstate) (op : list tok) : rstate * list tok :=
     if name =? "new" then
       match cfg_of args with
       | Some (c, [TN mf; TN mrx; TN _seed]) =>
-        (mkr (mgr_new c (Z.to_N mf) (Z.to_N mrx)) (rnow st) (rseen st), [])
+        (mkr (mgr_new c (Z.to_N mf) (Z.to_N mrx)) (rnow st) (rseen st) None, [])
       | _ => bad end
     else if name =? "cd" then
       match args with
@@ -125,8 +133,15 @@ Definition step_op (st : rstate) (op : list tok) : rstate * list tok :=
     else if name =? "drain" then do_step st IDrain
     else if name =? "tick" then
       match args with
-      | [TN d] => (mkr (rm st) (rnow st + Z.to_N d)%N (rseen st), [])
+      | [TN d] => (mkr (rm st) (rnow st + Z.to_N d)%N (rseen st) (rtimer st), [])
       | _ => bad end
+    else if name =? "fire" then
+      (* the shell's timer fires, at the armed deadline or [e] ms early *)
+      match args, rtimer st with
+      | [TN e], Some d =>
+        do_step (mkr (rm st) (N.max (rnow st) (d - Z.to_N e)) (rseen st) None) ITimeout
+      | [TN _], None => (st, [])
+      | _, _ => bad end
     else if name =? "timeout" then do_step st ITimeout
     else if name =? "abort" then
       match args with [TN id] => do_step st (IAbort (Z.to_nat id)) | _ => bad end
@@ -146,4 +161,4 @@ Fixpoint run_from (st : rstate) (ops : list (list tok)) : list (list tok) :=
 Definition empty_cfg : cfg := mkcfg [] false 0 0 0 0 false false.
 
 Definition run_case (ops : list (list tok)) : list (list tok) :=
-  run_from (mkr (mgr_new empty_cfg 0 0) 0%N []) ops.
+  run_from (mkr (mgr_new empty_cfg 0 0) 0%N [] None) ops.
